@@ -277,6 +277,39 @@ def _basic_case(n, m, rpc, H, rk, ck):
     return (got[0] == shape) & (got[1] == want) & fresh_bytes & _io_ok(fs, arr, n, L, rsel)
 
 
+def _seq_case(n, m, rpc, H, keys):
+    """several selections on ONE opened array, in sequence: each equals what it gives on a freshly opened array (no state carried over)"""
+    L = H + m * BPS
+    ok = True
+    try:
+        br, fs, arr = _mk_array(n, H, L, rpc, m=m, stack=lambda parts, axis=0: Mat(list(stub_stack(parts)), m))
+        for rk, ck in keys:
+            del fs.log[:]
+            got = arr[(rk, ck)]
+            rsel = list(range(n)[rk]) if isinstance(rk, slice) else [range(n)[rk]]
+            csel = list(range(m)[ck]) if isinstance(ck, slice) else [range(m)[ck]]
+            shape = ((len(rsel),) if isinstance(rk, slice) else ()) + ((len(csel),) if isinstance(ck, slice) else ())
+            want = [[720 + r * L + H + c * BPS for c in csel] for r in rsel]
+            if isinstance(got, np.ndarray):
+                ok = ok & (len(rsel) == 0) & (got.shape == shape)
+            elif not isinstance(got, tuple):
+                ok = False
+            else:
+                ok = ok & (got[0] == shape) & (got[1] == want) & _io_ok(fs, arr, n, L, rsel)
+    finally:
+        A.parse_data, A.np = _A_ORIG
+    return ok
+
+
+def basic_seq_ok(k1: int, k2: int, stop: int, H: int) -> bool:
+    """
+    pre: 0 <= k1 < N and 0 <= k2 < N and 0 <= stop <= N
+    pre: 0 < H
+    post: _
+    """
+    return _seq_case(N, M, RPC, H, [(k1, slice(None)), (k2, slice(None)), (slice(0, stop), slice(None)), (slice(None), slice(None)), (k1, slice(None))])
+
+
 def basic_slice_ok(start: int, stop: int, H: int) -> bool:
     """
     pre: -(N + 2) <= start <= N + 2
@@ -383,6 +416,21 @@ class StubMapper(dict):
         self.root, self.fs = root, fs
 
 
+def _section_fields():
+    from ceos_alos2.sar_image.file_descriptor import file_descriptor_record
+
+    for sc in file_descriptor_record.subcons:
+        if sc.name == "sar_related_data_in_the_record":
+            inner = sc
+            while not hasattr(inner, "subcons"):
+                inner = inner.subcon
+            return [c.name for c in inner.subcons if c.name]
+    return []
+
+
+_SECTION_FIELDS = _section_fields()
+
+
 class FDStubFull(FDStub):
     def __init__(self, n, L, lines, pixels, type_code):
         super().__init__(n, L)
@@ -391,8 +439,10 @@ class FDStubFull(FDStub):
     def parse(self, content):
         o = super().parse(content)
         o["preamble"] = Obj(record_length=720)
-        o["sar_related_data_in_the_record"] = Obj(number_of_lines_per_dataset=self.lines, number_of_data_groups_per_line=self.pixels,
-                                                  interleaving_id="BSQ")
+        # every field of the real section is present: the ones the shape does not depend on are blank (-1) or arbitrary
+        sec = {name: (-1 if k % 2 == 0 else 3 + k) for k, name in enumerate(_SECTION_FIELDS)}
+        sec.update(number_of_lines_per_dataset=self.lines, number_of_data_groups_per_line=self.pixels, interleaving_id="BSQ")
+        o["sar_related_data_in_the_record"] = Obj(**sec)
         o["prefix_suffix_data_locators"] = Obj(sar_data_format_type_code=self.type_code, maximum_data_range_of_pixel=-1,
                                                number_of_burst_data=-1, number_of_lines_per_burst=-1)
         o["scansar_burst_data_information"] = Obj(number_of_overlap_lines_with_adjacent_bursts=-1)
